@@ -154,5 +154,5 @@ def run_cases(cases, workers=None, chunk=32):
         return [_worker((i, c)) for i, c in enumerate(cases)]
     ctx = mp.get_context('fork')
     with ctx.Pool(workers) as pool:
-        recs = pool.map(_worker, list(enumerate(cases)), chunksize=chunk)
+        recs = pool.map(_worker, list(enumerate(cases)), chunksize=max(1, min(chunk, len(cases) // (workers * 4))))
     return recs
